@@ -485,6 +485,46 @@ fn lookups(case: &DirCase, inst: &Installed, pack: &Arc<jbk::reader::DirectoryPa
             let lin = index.find(&linear);
             let binary = Ordered(builder.new_multiple_property_compare(names.clone(), values(pi % 2 == 0)));
             let bin = index.find(&binary);
+            // the same two searches on the EntryRange converted from the index (`EntryRange::from(&index)`): same window
+            {
+                let range = jbk::EntryRange::from(&index);
+                let rl = range.find(&builder.new_multiple_property_compare(names.clone(), values(false)));
+                let rb = range.find(&Ordered(builder.new_multiple_property_compare(names.clone(), values(true))));
+                out.obs.add("lookups_on_converted_range", 2);
+                for (mode, res) in [("range-linear", &rl), ("range-binary", &rb)] {
+                    let got = match res {
+                        Ok(v) => Ok(v.map(|i| i.into_u32())),
+                        Err(_) => Err(()),
+                    };
+                    if got != Ok(expected) {
+                        out.violate(
+                            json!({"kind": "lookup", "mode": mode, "expected_present": expected.is_some(), "window_offset_zero": ix.offset == 0, "profile": profile()}),
+                            format!("C03: index {} (offset {} count {}) converted to an EntryRange: {mode} search for {:?} answers {:?}, expected {:?}", ix.name, ix.offset, ix.count, probe.iter().map(|v| v.brief()).collect::<Vec<_>>(), res.as_ref().map(|v| v.map(|i| i.into_u32())).map_err(|e| e.to_string()), expected),
+                            json!({}),
+                        );
+                        return;
+                    }
+                }
+            }
+            // single-property keys also go through the single-property constructor, which must agree
+            if names.len() == 1 {
+                let single = builder.new_property_compare(names[0].clone(), to_value_as(&probe[0], pi % 3 == 0));
+                let sres = index.find(&single);
+                out.obs.inc("lookups_single_property_constructor");
+                let same = match (&sres, &lin) {
+                    (Ok(a), Ok(b)) => a.map(|i| i.into_u32()) == b.map(|i| i.into_u32()),
+                    (Err(_), Err(_)) => true,
+                    _ => false,
+                };
+                if !same {
+                    out.violate(
+                        json!({"kind": "lookup", "mode": "single-property", "expected_present": expected.is_some(), "window_offset_zero": ix.offset == 0, "profile": profile()}),
+                        format!("C03: index {}: new_property_compare and new_multiple_property_compare disagree for {:?}", ix.name, probe.iter().map(|v| v.brief()).collect::<Vec<_>>()),
+                        json!({}),
+                    );
+                    return;
+                }
+            }
             out.obs.inc("lookups");
             if expected.is_some() {
                 out.obs.inc("lookups_present");
